@@ -188,6 +188,95 @@ def factory_discipline_history(ctx):
     ctx.sample = {"family": "factory discipline against an uncached twin", "class": name, "policy": policy, "ops": [list(o) for o in ops]}
 
 
+def process_history(ctx):
+    """Chains built from analytic disciplines (sequential, parallel, additive) with a cache on the process, against an
+    uncached twin (no cache at any level): the sub-disciplines keep their own default caches and share input
+    components between the points of the history."""
+    import numpy as np
+
+    from gemseo import create_discipline
+    from gemseo.core.chains.additive_chain import MDOAdditiveChain
+    from gemseo.core.chains.chain import MDOChain
+    from gemseo.core.chains.parallel_chain import MDOParallelChain
+    from gemseo.core.discipline import Discipline
+    from gemseo.utils.singleton import SingleInstancePerFileAttribute
+
+    t = ctx.tape
+    kind = t.pick(["MDOParallelChain", "MDOChain", "MDOAdditiveChain"], "process")
+    policy = t.pick(["MemoryFullCache", "HDF5Cache", "SimpleCache"], "policy")
+    sub_cache = t.pick(["SimpleCache", "none", "MemoryFullCache"], "sub_discipline_cache")
+
+    def build(cached):
+        if kind == "MDOChain":
+            d1 = create_discipline("AnalyticDiscipline", expressions={"p": "a**2+a"}, name="A")
+            d2 = create_discipline("AnalyticDiscipline", expressions={"q": "p**2+b**3"}, name="B")
+        elif kind == "MDOAdditiveChain":
+            d1 = create_discipline("AnalyticDiscipline", expressions={"p": "a**2+a", "s": "a**3"}, name="A")
+            d2 = create_discipline("AnalyticDiscipline", expressions={"q": "b**3", "s": "2*b**2"}, name="B")
+        else:
+            d1 = create_discipline("AnalyticDiscipline", expressions={"p": "a**2+a"}, name="A")
+            d2 = create_discipline("AnalyticDiscipline", expressions={"q": "b**3+b"}, name="B")
+        for d_ in (d1, d2):
+            if not cached or sub_cache == "none":
+                d_.set_cache(Discipline.CacheType.NONE)
+            elif sub_cache == "MemoryFullCache":
+                d_.set_cache("MemoryFullCache")
+        if kind == "MDOChain":
+            proc = MDOChain([d1, d2])
+        elif kind == "MDOAdditiveChain":
+            proc = MDOAdditiveChain([d1, d2], outputs_to_sum=["s"], n_processes=1)
+        else:
+            proc = MDOParallelChain([d1, d2], n_processes=1)
+        if not cached:
+            proc.set_cache(Discipline.CacheType.NONE)
+        elif policy == "HDF5Cache":
+            proc.set_cache("HDF5Cache", hdf_file_path=str(ctx.scratch / "proc.h5"), hdf_node_path="n")
+        else:
+            proc.set_cache(policy)
+        return proc
+
+    SingleInstancePerFileAttribute.instances.clear()
+    d, twin = build(True), build(False)
+    a_vals, b_vals = [1.0, 2.0], [0.5, 3.0]
+    pool = [{"a": array([a_vals[i]]), "b": array([b_vals[j]])} for i in range(2) for j in range(2)]  # 0:(a0,b0) 1:(a0,b1) 2:(a1,b0) 3:(a1,b1)
+    sig = f"process {kind} {policy} sub={sub_cache}"
+    # "come back" pattern: execute P3; linearize P0; execute P1 (shares a with P0); linearize P3
+    forced = [(False, 3), (True, 0), (False, 1), (True, 3)] if t.flag(0.3, "come_back_history") else []
+    ops = []
+    for i in range(len(forced) or t.randint(2, 7, "n_ops")):
+        with t.frame("op"):
+            if forced:
+                lin, k = forced[i]
+            else:
+                k = t.choice(4, "input")
+                lin = t.flag(0.5, "linearize")
+            ops.append(("lin" if lin else "exec", k))
+            res = []
+            for obj in (twin, d):
+                inp = {n: v.copy() for n, v in pool[k].items()}
+                if lin:
+                    jac = obj.linearize(inp, compute_all_jacobians=True)
+                    res.append({o: {i_: dense(v) for i_, v in jo.items()} for o, jo in jac.items()})
+                else:
+                    out = obj.execute(inp)
+                    res.append({n: np.array(out[n], copy=True) for n in obj.io.output_grammar.names})
+            exp, got = res
+            if lin:
+                bad = [(o, i_) for o in exp for i_ in exp[o] if o not in got or i_ not in got[o] or got[o][i_].shape != exp[o][i_].shape or not np.allclose(got[o][i_], exp[o][i_], rtol=1e-12, atol=1e-12)]
+                if bad:
+                    o, i_ = bad[0]
+                    ctx.violate("C05.jacobian_equal_uncached", sig, f"after {ops}: d{o}/d{i_} = {got.get(o, {}).get(i_)} differs from the uncached twin {exp[o][i_]}")
+            else:
+                bad = [n for n in exp if not np.allclose(got[n], exp[n], rtol=1e-12, atol=1e-12)]
+                if bad:
+                    ctx.violate("C05.outputs_equal_uncached", sig, f"after {ops}: output {bad[0]} = {got[bad[0]]} differs from the uncached twin {exp[bad[0]]}")
+    SingleInstancePerFileAttribute.instances.clear()
+    ctx.event("ops", kind, policy, sub_cache, tuple(ops))
+    ctx.probe("process_histories")
+    ctx.case(("process", kind, policy, sub_cache, tuple(ops)), nontrivial=len(set(k for _, k in ops)) >= 2)
+    ctx.sample = {"family": "chain against an uncached twin", "process": kind, "policy": policy, "sub_discipline_cache": sub_cache, "ops": [list(o) for o in ops]}
+
+
 def warmup():
     from .c20_pickle import factory_catalogue
 
@@ -197,6 +286,8 @@ def warmup():
 def run(ctx):
     if ctx.tape.flag(0.01, "large_sparse_jacobian"):
         return large_sparse_jacobian(ctx)
+    if ctx.tape.flag(0.06, "process_history"):
+        return process_history(ctx)
     if ctx.tape.flag(0.08, "factory_discipline"):
         return factory_discipline_history(ctx)
     if ctx.tape.flag(0.2, "cache_protocol_history"):
